@@ -55,11 +55,18 @@ def apply_policy(policy, n):
 
 
 def _neq_mask(x, b):
-    if x.dtype.kind in "fc":
-        same = (x == b) | (np.isnan(x) & np.isnan(b))
-    else:
-        same = x == b
-    return ~np.asarray(same).ravel()
+    x = np.asarray(x)
+    b = np.asarray(b)
+    try:
+        if x.dtype.kind in "fc":
+            same = np.equal(x, b) | (np.isnan(x) & np.isnan(b))
+        else:
+            same = np.equal(x, b)
+        return ~np.asarray(same, dtype=bool).ravel()
+    except Exception:
+        # exotic dtypes (object arrays of operators...): no element-wise
+        # write information, treat as 'nothing written'
+        return np.zeros(x.size, dtype=bool)
 
 
 class DetFuture(cf.Future):
@@ -91,8 +98,9 @@ class DetPool:
         self.tasks.append((f, fn, a, k))
         return f
 
-    def map(self, fn, it):
-        fs = [self.submit(fn, x) for x in it]
+    def map(self, fn, *iterables, timeout=None, chunksize=1):
+        # same contract as Executor.map: zip stops at the shortest iterable
+        fs = [self.submit(fn, *args) for args in zip(*iterables)]
         self.flush()
         return [f.result() for f in fs]
 
